@@ -412,8 +412,8 @@ def fingerprint(c, o):
     if m and "documentation gives" in why:
         port = int(m.group(1))
         for r in c["rules"]:
-            mm = re.search(r"/\s*0+-(\d+)\s*$", r["pp"])
-            if mm and port > int(mm.group(1)):
+            mm = re.search(r"/\s*0+(?:-(\d+))?\s*$", r["pp"])
+            if mm and port > int(mm.group(1) or 0):
                 return "acl-port-start-0-matches-any"
         return "acl-engine-not-first-match" if c["k"] == "eng" else "acl-not-first-match"
     return None
